@@ -335,3 +335,172 @@ def rule_F2_strings(ctx):
             else:
                 ctx.violated("F2s", key, f.where(line), "fixed-size buffer `%s`: %s — a longer name or a crafted/legacy file overruns the record" % (dst, why))
     ctx.floor("F2s", 25, n, "(copies into fixed-size array fields)")
+
+
+# ---------------------------------------------------------------------------------------
+# F2g: indices into fixed-size global / file-static arrays
+
+class _GlobIdx(PathAnalysis):
+    MAX_STEPS = 60000
+
+    """user = sorted tuple of (variable or expression text, inclusive upper bound) established on the path"""
+
+    def __init__(self, prog, G):
+        super().__init__(prog)
+        self.G = G
+        self.sites = {}
+        self.maxdim = max(G.values()) if G else 0
+
+    def init_user(self, func):
+        return ()
+
+    @staticmethod
+    def _key(e):
+        e = strip(e)
+        if kind(e) == "var":
+            return e[1]
+        return render(e)
+
+    def on_assume(self, func, bid, cond, pol, env, user):
+        c = strip(cond)
+        if kind(c) != "bin" or c[1] not in ("<", "<=", ">", ">=", "==", "!="):
+            return user
+        l, r = strip(c[2]), strip(c[3])
+        op = c[1]
+        if is_int(l) and not is_int(r):
+            l, r = r, l
+            op = {"<": ">", "<=": ">=", ">": "<", ">=": "<=", "==": "==", "!=": "!="}[op]
+        if not is_int(r):
+            return user
+        n = int_val(r)
+        k = self._key(l)
+        if not pol:
+            op = {"<": ">=", "<=": ">", ">": "<=", ">=": "<", "==": "!=", "!=": "=="}[op]
+        ub = None
+        if op == "<":
+            ub = n - 1
+        elif op == "<=":
+            ub = n
+        elif op == "==":
+            ub = n
+        if ub is None:
+            return user
+        d = dict(user)
+        if k not in d or d[k] > ub:
+            d[k] = ub
+        return tuple(sorted(d.items()))
+
+    def on_stmt(self, func, bid, idx, stmt, env, user):
+        d = dict(user)
+        e = stmt["e"]
+        # uses first (the index is evaluated before an enclosing increment of the same statement takes effect)
+        for x in walk(e, True):
+            if x[0] == "idx":
+                b = strip(x[1])
+                if kind(b) == "var" and b[2] == "g" and b[1] in self.G and not is_int(strip(x[2])):
+                    n = self.G[b[1]]
+                    ie = strip(x[2])
+                    k = self._key(ie)
+                    site = (b[1], k)
+                    ok = False
+                    if k in d and d[k] <= n - 1:
+                        ok = True
+                    elif kind(ie) == "bin" and ie[1] == "&" and is_int(ie[3]) and 0 <= int_val(ie[3]) <= n - 1:
+                        ok = True
+                    elif kind(ie) == "bin" and ie[1] == "%" and is_int(ie[3]) and 0 < int_val(ie[3]) <= n:
+                        ok = True
+                    else:
+                        v = env.get(ie[1]) if kind(ie) == "var" else None
+                        if v is not None and ((v[0] == "c" and 0 <= v[1] <= n - 1) or (v[0] == "rng" and v[2] is not None and v[2] <= n - 1)):
+                            ok = True
+                    self.sites[site] = self.sites.get(site, True) and ok
+        for x in walk(e, True):
+            if x[0] == "incdec" and kind(strip(x[3])) == "var":
+                k = strip(x[3])[1]
+                if k in d:
+                    d[k] = d[k] + 1 if x[1] == "++" else d[k]
+                    if d[k] > self.maxdim:
+                        d.pop(k)  # widening: beyond every table size the variable counts as unbounded
+            elif x[0] == "asg" and kind(strip(x[2])) == "var":
+                k = strip(x[2])[1]
+                r = strip(x[3])
+                if x[1] == "=" and is_int(r):
+                    d[k] = int_val(r)
+                else:
+                    d.pop(k, None)
+                # expressions mentioning the variable are no longer bounded either
+                for kk in [kk for kk in d if kk != k and ("(" in kk and k in kk)]:
+                    d.pop(kk)
+        return tuple(sorted(d.items()))
+
+
+F2G_EXCEPT = {
+    ("HIget_function_table", "functab"): "sentinel-terminated walk: the loop stops at the {0, NULL} entry that ends the initialiser of functab (checked by the dispatch-table rule of C01)",
+}
+
+
+def rule_F2_globals(ctx):
+    """F2g (C20): a running counter (a variable the function increments outside a for-header) that indexes a fixed-size
+    global or file-static array is compared with a constant <= the array's dimension before every use, on every path (the
+    bound is kept up to date across ++).  This is the token-table pattern of scanattrs; plain loop variables, masks and
+    externally validated indices are not instances of this rule."""
+    import re
+    prog = ctx.prog
+    G = {}
+    for name, gl in prog.globals.items():
+        for g in gl:
+            m = re.search(r"\[(\d+)\]", g.get("type", ""))
+            if m:
+                G[name] = int(m.group(1))
+    n = 0
+    for f in prog.lib_funcs():
+        has = False
+        for _b, _i, _s, x in f.nodes(True):
+            if x[0] == "idx":
+                b = strip(x[1])
+                if kind(b) == "var" and b[2] == "g" and b[1] in G and not is_int(strip(x[2])):
+                    has = True
+                    break
+        if not has:
+            continue
+        # running counters: variables this function increments
+        counters = set()
+        for _b, _i, _s, x in f.nodes(True):
+            if x[0] == "incdec" and x[1] == "++" and kind(strip(x[3])) == "var":
+                counters.add(strip(x[3])[1])
+            elif x[0] == "asg" and x[1] == "+=" and kind(strip(x[2])) == "var":
+                counters.add(strip(x[2])[1])
+        # loop variables of `for (v = ..; v < ..; v++)` are bounded by their loop and are not what this rule is about
+        from .codec import ast_walk
+        loopvars = set()
+
+        def lv(nn, st):
+            if nn[0] == "for" and nn[2] is not None:
+                c = strip(nn[2])
+                if kind(c) == "bin" and kind(strip(c[2])) == "var":
+                    loopvars.add(strip(c[2])[1])
+            return True
+        ast_walk(f.raw.get("ast"), lv)
+        counters -= loopvars
+        if not counters:
+            continue
+        a = _GlobIdx(prog, G)
+        a.fails = fail_values(f, prog)
+        try:
+            a.run(f)
+        except Exception as e:
+            ctx.excepted("F2g", "F2g:%s" % f.name, f.where(), "not decided: %s" % e)
+            continue
+        for (arr, k), ok in sorted(a.sites.items()):
+            if k not in counters:
+                continue
+            n += 1
+            key = "F2g:%s:%s[%s]" % (f.name, arr, k[:30])
+            if ok:
+                ctx.holds("F2g", key, f.where(), "index bounded by the dimension %d of `%s` on every path" % (G[arr], arr), nontrivial=True)
+            elif (f.name, arr) in F2G_EXCEPT:
+                ctx.excepted("F2g", key, f.where(), F2G_EXCEPT[(f.name, arr)])
+            else:
+                ctx.violated("F2g", key, f.where(), "`%s[%s]` is used on a path where `%s` is not known to be below the array dimension %d" % (arr, k[:40], k[:40], G[arr]))
+    ctx.floor("F2g", 2, n, "(running counters used as index into fixed-size global arrays)")
+    return n
